@@ -213,8 +213,48 @@ func (publisher *Publisher) Places() map[string]*place {
 	if publisher.placesMap == nil {
 		publisher.placesMap = map[string]*place{}
 
+		// The places come out of a map. Bring them into an order that is the
+		// same on every run before anything is chosen by "the first one wins"
+		// (the name of places that share a key) or left in the order of
+		// arrival (events that the sort below cannot tell apart).
+		places := publisher.doc.Places()
+		placeTags := []*gedcom.PlaceNode{}
+
+		for placeTag := range places {
+			placeTags = append(placeTags, placeTag)
+		}
+
+		sort.Slice(placeTags, func(i, j int) bool {
+			left, right := placeTags[i], placeTags[j]
+
+			if left.Value() != right.Value() {
+				return left.Value() < right.Value()
+			}
+
+			leftEvent := gedcom.GEDCOMString(places[left], 0)
+			rightEvent := gedcom.GEDCOMString(places[right], 0)
+
+			if leftEvent != rightEvent {
+				return leftEvent < rightEvent
+			}
+
+			leftPointer, rightPointer := "", ""
+
+			if individual := individualForNode(publisher.doc, places[left]); individual != nil {
+				leftPointer = individual.Pointer()
+			}
+
+			if individual := individualForNode(publisher.doc, places[right]); individual != nil {
+				rightPointer = individual.Pointer()
+			}
+
+			return leftPointer < rightPointer
+		})
+
 		// Get all of the unique place names.
-		for placeTag, node := range publisher.doc.Places() {
+		for _, placeTag := range placeTags {
+			node := places[placeTag]
+
 			// When living individuals are hidden nothing about them is
 			// published, not even that the places of their events exist.
 			if publisher.options.LivingVisibility == LivingVisibilityHide {
@@ -257,7 +297,7 @@ func (publisher *Publisher) Places() map[string]*place {
 		for key := range publisher.placesMap {
 			// Make sure the events are sorted otherwise the pages will be
 			// different.
-			sort.Slice(publisher.placesMap[key].nodes, func(i, j int) bool {
+			sort.SliceStable(publisher.placesMap[key].nodes, func(i, j int) bool {
 				left := publisher.placesMap[key].nodes[i]
 				right := publisher.placesMap[key].nodes[j]
 
